@@ -81,7 +81,7 @@ for _i in range(1, 21):
 PROPS["C01"]["families"] = [GENERAL_S, fam("fam_prefix", 40, 800)]
 PROPS["C02"]["families"] = [GENERAL_S, fam("fam_prefix", 30, 500), fam("fam_lanes", 20, 200), fam("fam_casefold", 10, 200), fam("fam_lanes_wide", 12, 36), fam("fam_implicit", 24, 400)]
 PROPS["C04"]["families"] = [GENERAL_S, fam("fam_num", 60, 1500)]
-PROPS["C19"]["families"] = [GENERAL_S, fam("fam_desc", 60, 1500)]
+PROPS["C19"]["families"] = [GENERAL_S, fam("fam_desc", 60, 1500), fam("fam_textfit", 64, 1600)]
 
 def mc(name, quick=True, **kw):
     d = {"name": name, "module": name, "cfg": name, "cfg_thorough": name + "_t", "quick": quick, "timeout": 400, "timeout_thorough": 3000}
@@ -136,9 +136,9 @@ CLAIMS = {
 
 PROPS["C03"]["families"] = [GENERAL_S, fam("fam_bounds", 40, 800), fam("fam_buf", 20, 400), fam("fam_num", 20, 400), fam("fam_lanes_exact", 12, 200)]
 PROPS["C05"]["families"] = [GENERAL_S, fam("fam_buf", 60, 1500)]
-PROPS["C06"]["families"] = [GENERAL_S, fam("fam_bounds", 50, 1000)]
+PROPS["C06"]["families"] = [GENERAL_S, fam("fam_bounds", 50, 1000), fam("fam_textfit", 32, 800)]
 PROPS["C07"]["families"] = [fam("fam_round", 40, 1500), fam("fam_round_exh8", 12, 60), fam("fam_access", 20, 300)]
-PROPS["C08"]["families"] = [GENERAL_S, fam("fam_access", 60, 1500)]
+PROPS["C08"]["families"] = [GENERAL_S, fam("fam_access", 60, 1500), fam("fam_wo_twins", 48, 1200)]
 PROPS["C09"]["families"] = [GENERAL_S, fam("fam_flags", 40, 1000), fam("fam_implicit", 24, 400)]
 PROPS["C10"]["families"] = [GENERAL_S, fam("fam_codes", 40, 1000)]
 PROPS["C11"]["families"] = [GENERAL_S, fam("fam_sched", 48, 1200)]
